@@ -334,6 +334,21 @@ def run_dispatch(chk, rng, work, quick):
     ]
     for name, fr, exprs, expected in supported:
         jobs.append((name, [fr], "@ true { puts([%s]); }" % exprs, ["[%s]" % expected]))
+    # $n below the innermost decoded layer is null also when it is the very first access to the packet (nothing cached
+    # yet): one fresh copy of the frame per n
+    depth = {"eth>ipv4>tcp": 3, "eth>ipv4>udp": 3, "eth>ipv4>ipv6>udp": 4, "eth>ipv6>tcp": 3, "eth>ipv6>udp": 3, "eth>vlan>ipv4>udp": 4,
+             "eth>vlan>ipv6>tcp": 4, "eth>vlan>vlan>ipv4>tcp": 5}
+    KFN = "fn k(x) { if x == null { \"N\" } else if is_error(x) { \"E\" } else { \"O\" } }\n"
+    for name, fr, _, _ in supported:
+        if name not in depth:
+            continue
+        ns = list(range(1, 11))     # $11 and beyond are a runtime error by design
+        rng.shuffle(ns)
+        script = KFN + "\n".join("@ NP == %d { puts(%d, k($%d)); }" % (i + 1, n, n) for i, n in enumerate(ns))
+        jobs.append(("fresh-" + name, [fr] * len(ns), script, ["%d%s" % (n, "O" if n <= depth[name] else "N") for n in ns]))
+        # and in descending order on one packet (deepest first)
+        script2 = KFN + "@ true { puts(%s); }" % ", ".join("k($%d)" % n for n in range(10, 0, -1))
+        jobs.append(("descending-" + name, [fr], script2, ["".join("O" if n <= depth[name] else "N" for n in range(10, 0, -1))]))
     # truncated layers are error objects, deeper $n stay error/null but never raise
     full = ip4(6, t)
     cuts = [(c, full[:c]) for c in range(0, len(full))]
